@@ -36,13 +36,20 @@ def rand_set(rng):
     return {'k': 'c', 'cls': rng.choice(['set', 'frozenset']), 'items': rng.sample(pool, rng.randint(0, 3))}
 
 
+def rand_item(rng):
+    """a scalar in a position where a value that is == to everything may stand (not a key, not in a set)"""
+    return {'k': 'any'} if rng.random() < 0.04 else rand_scalar(rng)
+
+
 def rand_tree(rng, depth, hashable=False):
     if depth <= 0 or rng.random() < 0.35:
-        return rand_scalar(rng)
-    classes = ['tuple', 'frozenset'] if hashable else ['list', 'list', 'tuple', 'set', 'frozenset', 'dict', 'dict', 'odict']
+        return rand_scalar(rng) if hashable else rand_item(rng)
+    # (flist / fdict: falsy whatever they hold; ntuple: a tuple subclass with its own constructor)
+    classes = ['tuple', 'frozenset'] if hashable else ['list', 'list', 'tuple', 'set', 'frozenset', 'dict', 'dict', 'odict',
+                                                       'flist', 'fdict', 'ntuple']
     cls = rng.choice(classes)
     n = rng.randint(0, 3)
-    if cls in ('dict', 'odict'):
+    if cls in ('dict', 'odict', 'fdict'):
         items, seen = [], set()
         for _ in range(n):
             k = rand_tree(rng, min(depth - 1, 1), hashable=True) if rng.random() < 0.15 else rand_scalar(rng)
@@ -366,7 +373,8 @@ def mutate(rng, t):
         else:
             v['items'].insert(rng.randint(0, len(v['items'])), rand_scalar(rng))
     else:
-        swap = {'list': 'tuple', 'tuple': 'list', 'dict': 'odict', 'odict': 'dict', 'set': 'frozenset', 'frozenset': 'set'}
+        swap = {'list': rng.choice(['tuple', 'flist']), 'tuple': rng.choice(['list', 'ntuple']), 'dict': rng.choice(['odict', 'fdict']),
+                'odict': 'dict', 'set': 'frozenset', 'frozenset': 'set', 'flist': 'list', 'fdict': 'dict', 'ntuple': 'tuple'}
         v['cls'] = swap[v['cls']]
     out = holder['root']
     return out if _buildable(out) else t
@@ -388,3 +396,18 @@ def untree(cells, root):
     if c['cls'] in B.MAPCLS:
         return {'k': 'c', 'cls': c['cls'], 'items': [{'key': untree(cells, k), 'val': untree(cells, v)} for k, v in c['items']]}
     return {'k': 'c', 'cls': c['cls'], 'items': [untree(cells, x) for x in c['items']]}
+
+
+def plainify(t):
+    """the same value with the falsy container subclasses replaced by their base classes"""
+    if t['k'] != 'c':
+        return t
+    t = dict(t)
+    t['cls'] = {'flist': 'list', 'fdict': 'dict'}.get(t['cls'], t['cls'])
+    t['items'] = [{'key': plainify(e['key']), 'val': plainify(e['val'])} if t['cls'] in B.MAPCLS else plainify(e) for e in t['items']]
+    return t
+
+
+def has_empty_alts(p):
+    import json
+    return '"alts": []' in json.dumps(p)
